@@ -106,6 +106,30 @@ def run(rep, props, replay=None):
             if ncomp is None:
                 t4 = runq.add(f"mclose {C.qlit(1e-7 * cs)} (mercer opsQ {m}%nat {C.qlist(lam)} {C.qmat(phi)}) {C.qmat(Csurf)}")
                 todo.append((t4, "cov: Mercer sum with all components reproduces the covariance surface", key, ncomp))
+            # scoring afterwards leaves the fitted decomposition alone: the reported covariance is still the Mercer sum
+            if ncomp in (2, None) and i % 2 == 0:
+                def _state(est):
+                    return [np.array(np.asarray(est.covariance.values), copy=True), np.array(np.asarray(est.eigenvalues), copy=True),
+                            np.array(np.asarray(est.eigenfunctions.values), copy=True), np.array(np.asarray(est.mean.values), copy=True)]
+                before = _state(f)
+                for sm in ("PACE", "NumInt"):
+                    try:
+                        with warnings.catch_warnings():
+                            warnings.simplefilter("ignore")
+                            f.transform(method=sm)
+                            f.transform(method=sm)
+                    except Exception as e:  # noqa: BLE001
+                        rep.notes.append(f"UFPCA(covariance).transform(method={sm}) raised {type(e).__name__}: {e}"[:160]) \
+                            if len(rep.notes) < 12 else None
+                        continue
+                    names = ["covariance", "eigenvalues", "eigenfunctions", "mean"]
+                    changed = [nm for nm, a0, a1 in zip(names, before, _state(f)) if not np.array_equal(a0, a1, equal_nan=True)]
+                    rep.case(("after-transform", sm, X.tobytes(), repr(ncomp)), kind="history/after-transform")
+                    if changed:
+                        rep.violation(f"UFPCA(covariance, n_components={ncomp}): transform(method='{sm}') changed the fitted {changed}: "
+                                      f"the reported covariance is no longer the Mercer sum of the reported eigenpairs",
+                                      {"x": C.hexf(x), "X": C.hexf(X), "n_components": ncomp, "score_method": sm, "changed": changed})
+                        break
             # direct tie with the model's back-transform of an independent eigh
             s = np.sqrt(w)
             M = (s[:, None] * Csurf) * s[None, :]
